@@ -17,6 +17,14 @@ struct L {
   ~L() { if (!alive) { g_bad++; std::printf("double destroy\n"); } alive = false; v = -777; --g_live; }
 };
 struct alignas(64) A64 { char c[64]; };
+struct alignas(256) A256 { char c[256]; };
+struct alignas(1024) A1024 { char c[1024]; };
+template <typename A, size_t N> static void alignRun() {
+  // several vectors alive at once so the allocator hands out blocks at varied offsets
+  dispenso::SmallVector<A, N> av[6];
+  for (int i = 0; i < 24; ++i) for (auto& v : av) { v.emplace_back(); if (i % 5 == 0) v.reserve(v.size() + 3);
+    for (size_t k = 0; k < v.size(); ++k) if (reinterpret_cast<uintptr_t>(&v[k]) % alignof(A)) { g_bad++; std::printf("N=%zu: element %zu of an alignas(%zu) type at a misaligned address\n", N, k, alignof(A)); return; } }
+}
 template <size_t N> static void run(unsigned seed) {
   std::srand(seed);
   for (int round = 0; round < 200; ++round) {
@@ -39,6 +47,7 @@ template <size_t N> static void run(unsigned seed) {
     }
     if (g_live != live0) { g_bad++; std::printf("N=%zu: %ld objects not destroyed\n", N, g_live - live0); return; }
   }
+  alignRun<A256, N>(); alignRun<A1024, N>();
   dispenso::SmallVector<A64, N> av;
   for (int i = 0; i < 40; ++i) { av.emplace_back(); for (size_t k = 0; k < av.size(); ++k) if (reinterpret_cast<uintptr_t>(&av[k]) % 64) { g_bad++; std::printf("N=%zu: element %zu of an alignas(64) type at a misaligned address\n", N, k); return; } }
 }
